@@ -344,6 +344,14 @@ INSTANCES.update({
                        prefix=True, prog={1: [S("root", tr=1, smp=True), S("setlp", h=101)]}), "terminal", {}),
 })
 
+# properties given through the handle of a local span (with_property) when the scope is at its limit: the
+# span that took the last slot is a recorded span like any other (seeded wave 8: "is_recording = sampled and
+# not full" in front of with_properties)
+INSTANCES.update({
+    "qlimit_with": (dict(seq(["lenter", "lexit", "lprops", "lwith", "levent"], QCap=2, MaxOps=6, MaxSpans=1, MaxRoots=1, MaxLocal=3, MaxAtt=3, MaxScopes=1, MaxCycles=0, distinct_ops=True),
+                         prefix=True, prog={1: [S("root", tr=1, smp=True), S("setlp", h=101)]}), "terminal", {}),
+})
+
 # adapters polled while the thread already has a (sampled) local parent, around sampled and unsampled spans
 # (seeded S36: poll skips set_local_parent for an unsampled span, so the outer parent shows through)
 INSTANCES.update({
